@@ -72,8 +72,14 @@ theorem C04_arm_convCheckedKeep (ext : Ext F) (laws : ExtLaws ext) (s : Scalar) 
         -- runtime law `f2i` = exact value for integral in-range floats
         simp [checkIn, convTo, GoVal.kind, Scalar.inKind, intValue, hx, laws.f2i32_exact x n hx hr, hr]
       · simp [hr, checkIn]
-  | int k n => cases k <;> simp_all [GoVal.kind, Kind.isFloat, GoVal.wf, kindRange]
-  | _ => simp_all [GoVal.kind, Kind.isFloat]
+  | int k n =>
+    -- the checked narrowing of an integer: an error exactly when it does not fit, else the value itself
+    simp only [applyAction]
+    by_cases hr : inRange32 n = true
+    · have h12 : -2147483648 ≤ n ∧ n < 2147483648 := by simpa [inRange32] using hr
+      simp [hr, checkIn, convTo, GoVal.kind, Scalar.inKind, wrapInt, wrap32_id n h12.1 h12.2, intValue, inRange32, h12.1, h12.2]
+    · simp [hr, checkIn]
+  | _ => simp_all [GoVal.kind, Kind.isFloat, Kind.isInt, kindRange]
 
 theorem C04_arm_fmtInt (ext : Ext F) (s : Scalar) (v : GoVal F)
     (hs : armSoundIn s v.kind .fmtInt = true) (hw : v.wf = true) :
